@@ -46,6 +46,10 @@ var (
 	// ErrNotOpen is returned when a Store is not open.
 	ErrNotOpen = errors.New("store not open")
 
+	// ErrNoRequest is returned when an Execute, Query or unified request
+	// carries no inner request.
+	ErrNoRequest = errors.New("no request")
+
 	// ErrOpen is returned when a Store is already open.
 	ErrOpen = errors.New("store already open")
 
@@ -1473,6 +1477,9 @@ func (s *Store) Execute(ctx context.Context, ex *proto.ExecuteRequest) ([]*proto
 	if !s.open.Is() {
 		return nil, 0, ErrNotOpen
 	}
+	if ex.Request == nil {
+		return nil, 0, ErrNoRequest
+	}
 
 	// Check if context is already canceled
 	if err := ctx.Err(); err != nil {
@@ -1528,6 +1535,9 @@ func (s *Store) Query(ctx context.Context, qr *proto.QueryRequest) (rows []*prot
 
 	if !s.open.Is() {
 		return nil, 0, 0, ErrNotOpen
+	}
+	if qr.Request == nil {
+		return nil, 0, 0, ErrNoRequest
 	}
 
 	// Check if context is already canceled
@@ -1644,6 +1654,9 @@ func (s *Store) Request(ctx context.Context, eqr *proto.ExecuteQueryRequest) ([]
 
 	if !s.open.Is() {
 		return nil, 0, 0, ErrNotOpen
+	}
+	if eqr.Request == nil {
+		return nil, 0, 0, ErrNoRequest
 	}
 
 	// Check if context is already canceled
